@@ -40,6 +40,8 @@ pub struct Session {
     pub flush_plan: Option<Vec<bool>>,
     /// version gate on (as connections made by the builder have it by default)
     pub verify_version: bool,
+    /// the user write after a drop is a `handshake` (the other public call that writes) instead of a `write`
+    pub handshake_after_drop: bool,
     pub label: String,
 }
 
@@ -129,13 +131,25 @@ pub fn run_session(s: &Session) -> Outcome {
             out.conservation_break = Some(format!("after poll {}: transport delivered {delivered} bytes, returned frames account for {consumed}, {len} buffered", out.polls));
         }
         if dropped && s.write_after_drop {
-            let mut wf = Box::pin(f.write(Packet::Tiny(Tiny { reqi: RequestId(77), subt: TinyType::Ping })));
             let mut done = false;
-            for _ in 0..10_000 {
-                out.polls += 1;
-                if let Poll::Ready(_r) = wf.as_mut().poll(&mut cx) {
-                    done = true;
-                    break;
+            if s.handshake_after_drop {
+                let isi = insim::insim::Isi { iname: "again".into(), ..Default::default() };
+                let mut wf = Box::pin(f.handshake(isi, std::time::Duration::from_secs(30)));
+                for _ in 0..10_000 {
+                    out.polls += 1;
+                    if let Poll::Ready(_r) = wf.as_mut().poll(&mut cx) {
+                        done = true;
+                        break;
+                    }
+                }
+            } else {
+                let mut wf = Box::pin(f.write(Packet::Tiny(Tiny { reqi: RequestId(77), subt: TinyType::Ping })));
+                for _ in 0..10_000 {
+                    out.polls += 1;
+                    if let Poll::Ready(_r) = wf.as_mut().poll(&mut cx) {
+                        done = true;
+                        break;
+                    }
                 }
             }
             if done {
@@ -213,7 +227,7 @@ fn judge(s: &Session, o: &Outcome, p: &mut Part) {
     // outgoing side: whole frames only, exactly the uninterrupted session's replies plus the user's frames
     let (out_frames, rest) = ref_frames(&o.written, s.compressed);
     let replies = out_frames.iter().filter(|f| f.len() == 4 && f[1] == 3 && f[2] == 0 && f[3] == 0).count();
-    let users = out_frames.iter().filter(|f| f.len() == 4 && f[1] == 3 && f[2] == 77).count();
+    let users = out_frames.iter().filter(|f| (f.len() == 4 && f[1] == 3 && f[2] == 77) || (f.len() == 44 && f[1] == 1)).count();
     if !rest.is_empty() || replies + users != out_frames.len() {
         p.violation(
             format!("C19/{where_}/partial-frame-on-outgoing-side"),
@@ -327,7 +341,7 @@ pub fn run(ctx: &mut Ctx) -> (&'static str, String, bool) {
                 (rplan, wplan)
             };
             let (rplan, wplan) = mk_plans();
-            let base = Session { compressed: *compressed, stream: stream.clone(), read_plan: rplan, default_read: 0, write_plan: wplan, default_write: 0, drops: BTreeSet::new(), write_after_drop: false, flush_plan: if *fl == 0 { None } else { Some((0..200).map(|i| i % fl != fl - 1).collect()) }, verify_version: label.contains("ver"), label: format!("{label}-r{rp}x{rk}-w{wp}x{wk}-f{fl}") };
+            let base = Session { compressed: *compressed, stream: stream.clone(), read_plan: rplan, default_read: 0, write_plan: wplan, default_write: 0, drops: BTreeSet::new(), write_after_drop: false, flush_plan: if *fl == 0 { None } else { Some((0..200).map(|i| i % fl != fl - 1).collect()) }, verify_version: label.contains("ver"), handshake_after_drop: false, label: format!("{label}-r{rp}x{rk}-w{wp}x{wk}-f{fl}") };
             // uninterrupted reference run
             let o0 = run_session(&base);
             p.evaluations += 1;
@@ -335,14 +349,15 @@ pub fn run(ctx: &mut Ctx) -> (&'static str, String, bool) {
             let total = o0.polls;
             // every single drop point
             for k in 1..=total + 2 {
-                for wad in [false, true] {
-                    if miri && wad && k % 2 == 0 {
+                for wad in [0u8, 1, 2] {
+                    if miri && wad > 0 && k % 2 == 0 {
                         continue;
                     }
                     let mut s = base.clone();
                     let _ = s.drops.insert(k);
-                    s.write_after_drop = wad;
-                    s.label = format!("{}-drop{k}{}", base.label, if wad { "-then-write" } else { "" });
+                    s.write_after_drop = wad > 0;
+                    s.handshake_after_drop = wad == 2;
+                    s.label = format!("{}-drop{k}{}", base.label, ["", "-then-write", "-then-handshake"][wad as usize]);
                     let o = run_session(&s);
                     p.evaluations += 1;
                     p.distinct(&s.label);
@@ -431,7 +446,7 @@ pub fn run(ctx: &mut Ctx) -> (&'static str, String, bool) {
             let ndrops = r.usize_below(30);
             let horizon = 50 + stream.len() / 4;
             let drops: BTreeSet<usize> = (0..ndrops).map(|_| 1 + r.usize_below(horizon)).collect();
-            let s = Session { compressed, stream, read_plan: rplan, default_read: 1 + r.usize_below(900), write_plan: wplan, default_write: 1 + r.usize_below(4), drops, write_after_drop: r.chance(1, 3), flush_plan: if i % 3 == 2 { Some((0..r.usize_below(60)).map(|_| r.chance(1, 2)).collect()) } else { None }, verify_version: i % 4 == 1, label: format!("long-{i}") };
+            let s = Session { compressed, stream, read_plan: rplan, default_read: 1 + r.usize_below(900), write_plan: wplan, default_write: 1 + r.usize_below(4), drops, write_after_drop: r.chance(1, 3), flush_plan: if i % 3 == 2 { Some((0..r.usize_below(60)).map(|_| r.chance(1, 2)).collect()) } else { None }, verify_version: i % 4 == 1, handshake_after_drop: i % 5 == 3, label: format!("long-{i}") };
             let o = run_session(&s);
             p.evaluations += 1;
             p.distinct(&s.stream);
